@@ -164,6 +164,7 @@ PROPERTIES = {
         "parts": [
             part("C14.queue", target=("test", "core/eventloop"), shards={"quick": 8, "thorough": 16}, floor=1000),
             part("C14.loop", target=("test", "core/eventloop"), shards={"quick": 8, "thorough": 16}, floor=1000),
+            part("C14.reactive", target=("test", "core/eventloop"), shards={"quick": 8, "thorough": 16}, floor=1000),
             part("C14.concurrent", target=("test", "core/eventloop"), race=True, shards={"quick": 8, "thorough": 16}, floor=50),
             part("C14.live", race=True, shards={"quick": 2, "thorough": 16}, floor=1, timeout={"quick": 900, "thorough": 7200}),
         ],
